@@ -73,19 +73,45 @@ def seedOk (seed : Option (Nat × Nat)) (dir : XDir) (aln : Aln) : Bool :=
      | .upstream => aln.getLast? == some (.both si sj)
      | .downstream => aln.head? == some (.both si sj))
 
+/-- the reported score against the optimum of the class the (completed) alignment belongs to (`optClass`):
+linear penalty -> `opt mode`; affine, no gap abuts a gap (free terminal gaps included) -> `optAff mode` (C08's class);
+affine semi-global, an interior gap run abuts a free terminal gap -> the semi-global optimum with the linear penalty
+`max go ge` (a proved bound on the abutting-allowed optimum; the exact one is checked by the enumeration oracle) -/
+def optOk (a b : Seq) (M : Mat) (gap : Gap) (mode : Mode) (aln : Aln) (sc : Int) : Bool :=
+  match mode, gap with
+  | .semi, .aff go ge =>
+    if noAbutB (complete a b aln) then decide (sc ≤ optT .semi (.aff go ge) M a b)
+    else decide (sc ≤ optT .semi (.lin (max go ge)) M a b)
+  | mode, gap => decide (sc ≤ optT mode gap M a b)
+
+/-- linear semi-global: also the positional form of the score; affine: no gap abuts a gap inside the trace -/
+def formOk (a b : Seq) (M : Mat) (gap : Gap) (mode : Mode) (aln : Aln) (sc : Int) : Bool :=
+  match mode, gap with
+  | .semi, .lin g => decide (scoreSemiPos M g a b (0, 0) (complete a b aln) = sc)
+  | _, .lin _ => true
+  | _, .aff _ _ => noAbutB aln
+
 def checkAln (a b : Seq) (M : Mat) (gap : Gap) (mode : Mode) (band : Option (Int × Int))
     (seed : Option (Nat × Nat)) (dir : XDir) (aln : Aln) (sc : Int) : Bool :=
   validB .local a b aln
   && decide (rescored mode gap M a b aln = sc)
-  && (match mode, gap with
-      | .semi, .lin g => decide (scoreSemiPos M g a b (0, 0) (complete a b aln) = sc)
-      | _, .lin _ => true
-      | _, .aff _ _ => noAbutB aln)
+  && formOk a b M gap mode aln sc
   && bandOk band aln
   && seedOk seed dir aln
-  && (match mode, gap with
-      | .semi, .aff _ _ => true     -- no optimality claim: the free ends may abut an interior gap run (notes/C09.md)
-      | _, _ => decide (sc ≤ optT mode gap M a b))
+  && optOk a b M gap mode aln sc
+
+/-- Which optimum an affine semi-global result is compared with. -/
+inductive OptClass where
+  | linear          -- linear penalty: the true optimum `opt mode`
+  | affNoAbut       -- affine, (completed) alignment without abutting gaps: `optAff mode` (C08's class)
+  | affAbutFree     -- affine semi-global, an interior gap run abuts a free terminal gap: outside C08's class
+  deriving DecidableEq, Repr
+
+def optClass (a b : Seq) (gap : Gap) (mode : Mode) (aln : Aln) : OptClass :=
+  match mode, gap with
+  | _, .lin _ => .linear
+  | .semi, .aff _ _ => if noAbutB (complete a b aln) then .affNoAbut else .affAbutFree
+  | _, .aff _ _ => .affNoAbut
 
 /-- `mode` is `.semi` for `align_banded(local=False)` and `.local` for everything else. -/
 def checkResult (a b : Seq) (M : Mat) (gap : Gap) (mode : Mode) (band : Option (Int × Int))
